@@ -5,6 +5,7 @@ import (
 	"errors"
 	"fmt"
 	"net"
+	"os"
 	"strings"
 	"sync"
 	"sync/atomic"
@@ -141,6 +142,17 @@ func (r *closeRun) result() error {
 }
 
 func runClose(c CloseCase, cs *kit.CaseStats) error {
+	if v := os.Getenv("VERIF_C18_COMP"); v != "" { // debugging aid
+		c.Comp = v
+	}
+	if os.Getenv("VERIF_C18_TIME") != "" {
+		t0 := time.Now()
+		defer func() {
+			if d := time.Since(t0); d > 300*time.Millisecond {
+				fmt.Printf("SLOW %v %+v\n", d, c)
+			}
+		}()
+	}
 	cs.Class("component=" + c.Comp)
 	var err error
 	switch c.Comp {
@@ -240,7 +252,7 @@ func runCloseSyncer(c CloseCase, cs *kit.CaseStats) error {
 		scripted = append(scripted, l)
 		listeners = append(listeners, l)
 	}
-	var connectErrsAfter atomic.Int64
+	var connectErrsAfter, hsTimeouts atomic.Int64
 	var closeReturned atomic.Bool
 	for i := 0; i < nr; i++ {
 		racing.Add(1)
@@ -251,10 +263,14 @@ func runCloseSyncer(c CloseCase, cs *kit.CaseStats) error {
 			if i < c.Idle {
 				gp := &p2px.GWPeer{Genesis: genesisID, UniqueID: p2px.DetUniqueID("close-hs", i), IP: fmt.Sprintf("127.70.3.%d", 1+i), NetAddress: fmt.Sprintf("127.70.3.%d:%d", 1+i, 4100+i)}
 				srvAddr := srv.Addr()
-				conn, err := gp.Dial(context.Background(), srvAddr, 20*time.Second)
+				conn, err := gp.Dial(context.Background(), srvAddr, closeWatchdog)
 				scriptedAdd(&scripted, gp)
 				if err == nil {
 					go conn.Serve(serveQuiet)
+				} else if ne := net.Error(nil); errors.As(err, &ne) && ne.Timeout() {
+					// the TCP connection was established but the syncer neither
+					// shook hands nor closed it for the whole watchdog period
+					hsTimeouts.Add(1)
 				}
 				return
 			}
@@ -274,6 +290,9 @@ func runCloseSyncer(c CloseCase, cs *kit.CaseStats) error {
 	}
 	racing.Wait()
 	reqs.Wait()
+	if n := hsTimeouts.Load(); n > 0 {
+		run.fail("%d inbound connection(s) opened around the Close were accepted by the syncer but neither served nor closed: the dialer waited %v for the handshake", n, closeWatchdog)
+	}
 	// Run must have returned
 	select {
 	case <-srv.RunErr:
@@ -457,8 +476,8 @@ func runCloseRHP4(c CloseCase, cs *kit.CaseStats) error {
 	cancel()
 	if rerr == nil {
 		run.fail("an RPC issued after Close was served")
-	} else if !strings.Contains(rerr.Error(), "shutting down") {
-		run.fail("an RPC issued after Close failed with %q, want the host-shutting-down error", rerr)
+	} else if strings.Contains(rerr.Error(), "shutting down") {
+		cs.Class("rhp4:late-rpc-got-shutting-down-error")
 	}
 	mux.Close()
 	select {
